@@ -20,7 +20,7 @@ RHOS = [{"rho_o0": 141.5 / (45 + 131.5), "rho_g0": 1.03e-3, "rho_w0": 1.0},
         {"rho_o0": 52.0, "rho_g0": 0.06, "rho_w0": 63.0}]
 
 
-def shipped_table():
+def shipped_table(from_zero=False):
     """The shipped oil + water tables merged as in the repository's own test fixture."""
     import pandas as pd  # noqa: PLC0415
 
@@ -31,13 +31,14 @@ def shipped_table():
         oil.rename(columns={"T": "temperature", "P": "pressure", "Oil_Viscosity": "mu_o", "Gas_Viscosity": "mu_g",
                             "Rso": "Rs"}), on="pressure").assign(Rv=0)
     df["So"] = (1 - 0.1) / ((df["Rs"].max() - df["Rs"]) * df["Bg"] / df["Bo"] / 5.61458 + 1)
-    df = df[df["pressure"] >= 10].reset_index(drop=True)
+    if not from_zero:  # the p = 0 row is kept only for the storage coefficient (C16)
+        df = df[df["pressure"] >= 10].reset_index(drop=True)
     return df
 
 
 def get_table(case):
-    if case["family"] == "shipped":
-        df = shipped_table()
+    if case["family"] in ("shipped", "shipped0"):
+        df = shipped_table(from_zero=case["family"] == "shipped0")
         return {k: df[k].to_numpy(dtype=float) for k in ["pressure", "pseudopressure", "So"] + mp.PROPS}
     return mp.table(case["family"], mp.grid(case["grid"], case.get("seed", 0)))
 
